@@ -256,6 +256,33 @@ async def _run(ctx, text):
                         ctx.violation("decode-overread/%s" % cls.__name__, "consume_all accepted a decode ending at %d of %d bytes" % (off2, len(data)), meta)
                 except Exception:   # noqa
                     pass
+    # ---- packer level: self-delimiting formats are prefix-free - no strict prefix of an encoding may decode
+    pref_n = 0
+    for name, d in sorted(reg.items()):
+        if d[0] in ("raw", "nested") or (d[0] == "listof" and d[2][0] == "nested"):
+            continue
+        packer = ser._packers[name]
+        for _ in range(3 if ctx.quick else 12):
+            try:
+                v = wire.gen_value(r, d, keys, 1, gen_class)
+                bs = packer.pack(*v) if d[0] == "bits" or (d[0] == "struct" and len(d[1]) > 1) else packer.pack(v)
+            except Exception:   # noqa - not a legal value for this packer
+                continue
+            if len(bs) > 300:
+                continue
+            for k in range(len(bs)):
+                lst = []
+                pref_n += 1
+                try:
+                    end = packer.unpack(bs[:k], 0, lst)
+                except Exception:   # noqa - rejected, as it must be
+                    continue
+                ctx.violation("decode-truncated-accepted/%s" % name,
+                              "%s.unpack accepts the first %d of the %d bytes of an encoding (reported end %s, value %r)" % (
+                                  name, k, len(bs), end, lst[:1]),
+                              {"kind": "packer-prefix", "name": name, "data": bs.hex(), "cut": k})
+                break
+    ctx.extra["packer_prefix_inputs"] = pref_n
     ctx.extra["decode_outcomes"] = kinds
     if cases:
         ctx.sample({"decode_case": cases[len(cases) // 2][2]})
@@ -571,7 +598,15 @@ def replay(path):
     for v in js.get("violations", []):
         c = v["case"]
         print(v["key"], "::", v["what"])
-        if c["kind"] == "recv-stale":
+        if c["kind"] == "packer-prefix":
+            lst = []
+            try:
+                end = ser._packers[c["name"]].unpack(bytes.fromhex(c["data"])[:c["cut"]], 0, lst)
+                print("  still accepts the %d-byte prefix: end %s value %r" % (c["cut"], end, lst[:1]))
+                rc = 1
+            except Exception as e:   # noqa
+                print("  now rejects the prefix:", type(e).__name__)
+        elif c["kind"] == "recv-stale":
             print("  datagram from the address of a forgotten peer (%s):" % c["how"], c["data"][:60])
             rc = 1
         elif c["kind"] == "recv-shared":
